@@ -701,6 +701,15 @@ func runCheck(c *propCfg, tier string) int {
 	_ = os.WriteFile(filepath.Join(evDir, c.id+".json"), eb, 0o644)
 
 	fmt.Printf("%s %s: %d evaluations, %d distinct non-trivial, %d shards, %.1fs\n", c.id, tier, m.Evaluations, m.Distinct, m.Shards, time.Since(start).Seconds())
+	// scratch that is only needed during the run (exchange files for the noasm binary, hash sets of the shards)
+	if len(violations) == 0 && len(infra) == 0 {
+		_ = os.RemoveAll(filepath.Join(work, "exchange"))
+		if ms, _ := filepath.Glob(filepath.Join(work, "*.hashes")); ms != nil {
+			for _, f := range ms {
+				_ = os.Remove(f)
+			}
+		}
+	}
 	if len(violations) > 0 {
 		seenV := map[string]bool{}
 		for _, v := range violations {
